@@ -962,7 +962,7 @@ func sectionRace(rng *vh.Rng) {
 		res.Fatal(args.Out, "race: %v", err)
 	}
 	defer func() { srv.Stop(); os.RemoveAll(srv.Dir) }()
-	rounds := 200
+	rounds := 600 // cheap (≈1 ms a round); a lost-update window inside getOrCreateJournal needs a few hundred rounds to show reliably
 	if args.Thorough {
 		rounds = 3000
 	}
